@@ -237,7 +237,10 @@ impl<T: Qcow2IoOps> Qcow2Dev<T> {
         key: usize,
         slice_off: usize,
         slice: B,
-    ) -> Qcow2Result<Option<Vec<(usize, AsyncLruCacheEntry<AsyncRwLock<B>>)>>> {
+    ) -> Qcow2Result<(
+        AsyncLruCacheEntry<AsyncRwLock<B>>,
+        Option<Vec<(usize, AsyncLruCacheEntry<AsyncRwLock<B>>)>>,
+    )> {
         let info = &self.info;
 
         log::trace!(
@@ -256,6 +259,12 @@ impl<T: Qcow2IoOps> Qcow2Dev<T> {
         // hold write lock, so anyone can't get this entry
         // and the whole cache lock isn't required, so lock wait is just on
         // this entry
+        //
+        // The entry itself is handed back to the caller: it keeps the slice
+        // referenced (so the LRU does not pick it) until the caller has it in
+        // use; looking it up again later could miss it, because a concurrent
+        // commit may evict an unreferenced entry in between.
+        let evicted = {
         let mut slice = entry.value().write().await;
 
         // if rb becomes update, it has been committed in read map already
@@ -282,11 +291,13 @@ impl<T: Qcow2IoOps> Qcow2Dev<T> {
             }
 
             //commit all populated caches and make them visible
-            Ok(cache.commit_wmap())
+            cache.commit_wmap()
         } else {
             log::trace!("add_cache_slice: slice is already update");
-            Ok(None)
+            None
         }
+        };
+        Ok((entry, evicted))
     }
 
     #[inline]
@@ -296,17 +307,15 @@ impl<T: Qcow2IoOps> Qcow2Dev<T> {
         key: usize,
         slice_off: usize,
         slice: RefBlock,
-    ) -> Qcow2Result<()> {
-        match self
+    ) -> Qcow2Result<AsyncLruCacheEntry<AsyncRwLock<RefBlock>>> {
+        let (entry, evicted) = self
             .add_cache_slice(&self.refblock_cache, rt_e, key, slice_off, slice)
-            .await?
-        {
-            Some(to_kill) => {
-                log::warn!("add_rb_slice: cache eviction, slices {}", to_kill.len());
-                self.flush_cache_entries(to_kill).await
-            }
-            _ => Ok(()),
+            .await?;
+        if let Some(to_kill) = evicted {
+            log::warn!("add_rb_slice: cache eviction, slices {}", to_kill.len());
+            self.flush_cache_entries(to_kill).await?;
         }
+        Ok(entry)
     }
 
     pub(crate) async fn get_refblock(
@@ -316,10 +325,9 @@ impl<T: Qcow2IoOps> Qcow2Dev<T> {
     ) -> Qcow2Result<AsyncLruCacheEntry<AsyncRwLock<RefBlock>>> {
         let info = &self.info;
         let key = cls.rb_slice_key(info);
-        let rb_cache = &self.refblock_cache;
 
         // fast path
-        if let Some(entry) = rb_cache.get(key) {
+        if let Some(entry) = self.refblock_cache.get(key) {
             return Ok(entry);
         }
 
@@ -329,13 +337,7 @@ impl<T: Qcow2IoOps> Qcow2Dev<T> {
             cls.rb_slice_off_in_table(info),
             RefBlock::new(info.refcount_order, 1 << info.rb_slice_bits, None),
         )
-        .await?;
-
-        if let Some(entry) = rb_cache.get(key) {
-            Ok(entry)
-        } else {
-            Err("Fail to load refcount block".into())
-        }
+        .await
     }
 
     /// make sure reftable entry points to valid refcount block
